@@ -19,18 +19,28 @@ Definition imap_q (s : str) : str :=
 Definition expected_addr_list (name local dom : str) : str :=
   S_ "((" ++ imap_q name ++ S_ " NIL " ++ imap_q local ++ [SP] ++ imap_q dom ++ S_ "))".
 
-Definition addr_ok (name local dom : str) : bool :=
-  match parse_address_list (render_addr name local dom) with
+(** one address as RFC 3501 wants it: (name NIL local dom) *)
+Definition expected_struct (a : str * str * str) : str :=
+  let '(name, local, dom) := a in
+  S_ "(" ++ imap_q name ++ S_ " NIL " ++ imap_q local ++ [SP] ++ imap_q dom ++ S_ ")".
+
+Definition expected_list (l : list (str * str * str)) : str :=
+  S_ "(" ++ join (map expected_struct l) [SP] ++ S_ ")".
+
+(** the *mail.Address the library returns for (name, local, dom) *)
+Definition mail_addr (a : str * str * str) : str * str :=
+  let '(name, local, dom) := a in (name, local ++ [AT_] ++ dom).
+
+Definition dom_ok (a : str * str * str) : bool :=
+  let '(_, _, dom) := a in negb (contains_byte dom AT_).
+
+(** the splitting that was used for every header before the repair (still the
+    fallback): what it does to a quoted display name *)
+Definition fallback_ok (name local dom : str) : bool :=
+  match parse_fallback (render_addr name local dom) with
   | Some s => str_eqb s (expected_addr_list name local dom)
   | None => false
   end.
-
-Inductive addr_class := NameComma | NameQuotedPair.
-
-Definition classify_addr (name : str) : option addr_class :=
-  if contains_byte name COMMA then Some NameComma
-  else if contains_byte name DQ || contains_byte name BSL then Some NameQuotedPair
-  else None.
 
 (** decoding of an IMAP quoted string / NIL, for the round trip of QuoteOrNIL *)
 Fixpoint unq_body (s : str) : option str :=
